@@ -266,10 +266,25 @@ def fault_nested_chain(data, o, rng, chains=None):
     wide = [x for x in pool if o.items[x[0]][5] >= 2]
     idx, chain = rng.choice(wide if (wide and rng.random() < 0.85) else pool)
     it = o.items[idx]
+    if len(chain) > 2 and rng.random() < 0.25 and it[5] >= 2:
+        # only the innermost of three or more nested regions ends inside the field: the skipped rest must be charged to
+        # *every* region around it, not only to the next one
+        ri, r = chain[-1]
+        sit = o.items[size_item[ri]]
+        new = it[4] + rng.randrange(1, it[5]) - r.start
+        nxt = put(data, sit, new) if new >= 0 and new != sit[3] else None
+        if nxt is not None:
+            return nxt, [_rec("size", o, sit, size_item[ri], old=sit[3], new=new, region=r.kind, delta="chain-innermost")]
     if len(chain) > 2 and rng.random() < 0.4:
         keep = sorted(rng.sample(range(len(chain)), rng.randint(2, len(chain))))
         chain = [chain[k] for k in keep]
     ends = sorted(it[4] + rng.randrange(0, it[5]) for _ in chain)      # offsets at which the regions end; outermost last
+    if rng.random() < 0.3:
+        # the regions around the innermost one end a little later, inside (or in front of) fields that follow: the rest that
+        # was skipped for the innermost region must already count for them when those fields are reached
+        later = [x for x in o.items[idx + 1:idx + 25] if x[0] == "P"]
+        if later:
+            ends = [ends[0]] + sorted(x[4] + rng.randrange(0, x[5]) for x in (rng.choice(later) for _ in chain[1:]))
     ends.reverse()                                                      # chain is outermost first
     if rng.random() < 0.12:
         rng.shuffle(ends)                                               # an inner region reaching beyond an outer one: anticipated
